@@ -395,7 +395,7 @@ def _check(prop, tier, replay, spec, seed, jobs, t0, scratch, env, known):
             v['_len'] = os.path.getsize(v['replay'])
         except OSError:
             v['_len'] = 1 << 30
-        k = (v.get('harness'), ''.join(ch for ch in v.get('msg', '')[:90] if not ch.isdigit()))
+        k = (v.get('harness'), ''.join(ch for ch in v.get('msg', '') if not ch.isdigit())[:80])
         if k not in best or v['_len'] < best[k]['_len']:
             best[k] = v
     violations = sorted(best.values(), key=lambda v: v['_len'])[:4]
